@@ -46,12 +46,12 @@ theorem seek_once_false :
 /-- **write ∘ read = identity for every member list and every chunking policy** (regular members whose header the codec
     can represent; contents of any size: empty, shorter than a block, multiples of 512, large). -/
 theorem read_write_roundtrip (c : Codec) (ms : List Member) (p : Nat → Nat → Nat)
-    (hv : ∀ m ∈ ms, c.valid m.name m.data.length) :
+    (hv : ∀ m ∈ ms, MValid c m) :
     readArchive c.dec { data := writeArchive c ms, policy := p } = .ok ms := by
   unfold readArchive
   have hlen : (writeArchive c ms).length = (writeMembers c ms).length + 1024 +
       (10240 - ((writeMembers c ms).length + 1024) % 10240) % 10240 := by
-    simp [writeArchive, closing, zeros_length]; omega
+    simp only [writeArchive, closing, List.length_append, zeros_length]; omega
   have hge := writeMembers_length_ge c ms
   have hf : (writeArchive c ms).length / 512 + 1 = ms.length + ((writeArchive c ms).length / 512 + 1 - ms.length) := by
     have : ms.length ≤ (writeArchive c ms).length / 512 := by
@@ -62,8 +62,9 @@ theorem read_write_roundtrip (c : Codec) (ms : List Member) (p : Nat → Nat →
       rw [Nat.le_div_iff_mul_le (by decide)]; omega
     omega
   show readMembers c.dec _ (mkReader (writeArchive c ms) p 0) 0 [] = _
-  rw [hf, readMembers_peel c p _ (closing (writeMembers c ms).length) ms (writeArchive c ms) 0 0 [] hv (Nat.le_refl _)
-    (by simp [writeArchive])]
+  rw [hf]
+  show readMembers c.dec _ (mkReader (writeMembers c ms ++ closing (writeMembers c ms).length) p 0) 0 [] = _
+  rw [readMembers_peel c p _ (closing (writeMembers c ms).length) ms 0 [] hv]
   obtain ⟨k, hk'⟩ : ∃ k, (writeArchive c ms).length / 512 + 1 - ms.length = k + 1 := ⟨_, (Nat.succ_pred_eq_of_pos hk).symm⟩
   rw [hk']
   simp only [Nat.zero_add, List.nil_append]
@@ -74,14 +75,14 @@ theorem read_write_roundtrip (c : Codec) (ms : List Member) (p : Nat → Nat →
   simp only [readMembers, hs, read_mk, ht, classify_zeros]
 
 /-- the extracted members do not depend on how the stream is chunked -/
-theorem read_policy_independent (c : Codec) (data : List Byte) (p p' : Nat → Nat → Nat) :
-    readArchive c.dec { data := data, policy := p } = readArchive c.dec { data := data, policy := p' } :=
-  readMembers_policy c p p' _ data 0 0 []
+theorem read_policy_independent (dec : Dec) (data : List Byte) (p p' : Nat → Nat → Nat) :
+    readArchive dec { data := data, policy := p } = readArchive dec { data := data, policy := p' } :=
+  readMembers_policy dec p p' _ data 0 0 []
 
 /-- **Truncation at a member boundary is accepted silently** (known finding): a stream that ends right after the blocks
     of `ms` — the remaining members and the end-of-archive marker are missing — reads as a complete archive `ms`. -/
 theorem truncated_at_boundary_silent (c : Codec) (ms : List Member) (p : Nat → Nat → Nat) (hne : ms ≠ [])
-    (hv : ∀ m ∈ ms, c.valid m.name m.data.length) :
+    (hv : ∀ m ∈ ms, MValid c m) :
     readArchive c.dec { data := writeMembers c ms, policy := p } = .ok ms := by
   unfold readArchive
   have hge := writeMembers_length_ge c ms
@@ -89,18 +90,21 @@ theorem truncated_at_boundary_silent (c : Codec) (ms : List Member) (p : Nat →
     rw [Nat.le_div_iff_mul_le (by decide)]; omega
   have hf : (writeMembers c ms).length / 512 + 1 = ms.length + ((writeMembers c ms).length / 512 + 1 - ms.length) := by omega
   show readMembers c.dec _ (mkReader (writeMembers c ms) p 0) 0 [] = _
-  rw [hf, readMembers_peel c p _ [] ms (writeMembers c ms) 0 0 [] hv (Nat.le_refl _) (by simp)]
+  have hwm : writeMembers c ms = writeMembers c ms ++ [] := by simp
+  rw [hf]
+  conv => lhs; arg 3; rw [hwm]
+  rw [readMembers_peel c p _ [] ms 0 [] hv]
   simp only [Nat.zero_add, List.nil_append]
   have hpos : (writeMembers c ms).length ≠ 0 := by
     cases ms with
     | nil => exact absurd rfl hne
     | cons m r => simp only [List.length_cons] at hge; omega
-  rw [readMembers_at_end c p _ _ _ hpos]
+  rw [readMembers_at_end c.dec p _ _ _ hpos]
 
 /-- **Truncation inside a member's data yields a partial file, silently** (known finding): the stream ends after `j` of
     the member's bytes; the member is extracted with those `j` bytes and no error is raised. -/
 theorem truncated_in_data_silent (c : Codec) (ms : List Member) (m : Member) (j : Nat) (p : Nat → Nat → Nat)
-    (hv : ∀ x ∈ ms, c.valid x.name x.data.length) (hm : c.valid m.name m.data.length) (hj : j < m.data.length) :
+    (hv : ∀ x ∈ ms, MValid c x) (hm : c.valid m.name m.data.length) (hj : j < m.data.length) :
     readArchive c.dec { data := writeMembers c ms ++ (c.enc m.name m.data.length ++ m.data.take j), policy := p }
       = .ok (ms ++ [{ name := m.name, data := m.data.take j }]) := by
   unfold readArchive
@@ -114,8 +118,7 @@ theorem truncated_in_data_silent (c : Codec) (ms : List Member) (m : Member) (j 
       = ms.length + (k + 2) :=
     ⟨(writeMembers c ms ++ (c.enc m.name m.data.length ++ m.data.take j)).length / 512 + 1 - ms.length - 2, by omega⟩
   show readMembers c.dec _ (mkReader _ p 0) 0 [] = _
-  rw [hk, readMembers_peel c p _ (c.enc m.name m.data.length ++ m.data.take j) ms
-    (writeMembers c ms ++ (c.enc m.name m.data.length ++ m.data.take j)) 0 0 [] hv (Nat.le_refl _) (by simp)]
+  rw [hk, readMembers_peel c p _ (c.enc m.name m.data.length ++ m.data.take j) ms 0 [] hv]
   simp only [Nat.zero_add, List.nil_append]
   have hs := seek_mk (c.enc m.name m.data.length ++ m.data.take j) p (writeMembers c ms).length
     (writeMembers c ms).length (Nat.le_refl _)
@@ -139,8 +142,41 @@ theorem truncated_in_data_silent (c : Codec) (ms : List Member) (m : Member) (j 
   | zero => simp [hs2, read_mk, classify]
   | succ k => simp [hs2, read_mk, classify]
 
+/-- **a stream that ends right after a GNU long-name record fails** (here the code is right: `_proc_gnulong` turns the missing
+    header into `SubsequentHeaderError`, which `next()` re-raises as `ReadError` at any offset) -/
+theorem truncated_after_longname_fails (c : Codec) (ms : List Member) (name : List Byte) (p : Nat → Nat → Nat)
+    (hv : ∀ x ∈ ms, MValid c x) (hl : 100 < name.length) (hvl : c.validLong (name.length + 1)) :
+    readArchive c.dec { data := writeMembers c ms ++ longRecord c name, policy := p } = .error := by
+  unfold readArchive
+  have hge := writeMembers_length_ge c ms
+  have hnot : ¬ name.length ≤ 100 := by omega
+  have hlr : longRecord c name = c.encLong (name.length + 1) ++ (name ++ [0] ++ zeros (padLen (name.length + 1))) := by
+    simp [longRecord, hnot]
+  have hnbl : (name ++ [0] ++ zeros (padLen (name.length + 1))).length = blockLen (name.length + 1) := by
+    simp only [List.length_append, zeros_length, List.length_cons, List.length_nil, blockLen]
+  have hlen : (writeMembers c ms ++ longRecord c name).length = (writeMembers c ms).length + 512 + blockLen (name.length + 1) := by
+    rw [List.length_append, hlr, List.length_append, c.encLong_len, hnbl]; omega
+  have hle : ms.length + 1 ≤ (writeMembers c ms ++ longRecord c name).length / 512 := by
+    rw [Nat.le_div_iff_mul_le (by decide), hlen]; omega
+  obtain ⟨k, hk⟩ : ∃ k, (writeMembers c ms ++ longRecord c name).length / 512 + 1 = ms.length + (k + 1) :=
+    ⟨(writeMembers c ms ++ longRecord c name).length / 512 + 1 - ms.length - 1, by omega⟩
+  show readMembers c.dec _ (mkReader _ p 0) 0 [] = _
+  rw [hk, readMembers_peel c p _ (longRecord c name) ms 0 [] hv, hlr]
+  simp only [Nat.zero_add, List.nil_append]
+  have hs := seek_mk (c.encLong (name.length + 1) ++ (name ++ [0] ++ zeros (padLen (name.length + 1)))) p
+    (writeMembers c ms).length (writeMembers c ms).length (Nat.le_refl _)
+  simp only [Nat.sub_self, List.drop_zero] at hs
+  have t0 : (c.encLong (name.length + 1) ++ (name ++ [0] ++ zeros (padLen (name.length + 1)))).take 512
+      = c.encLong (name.length + 1) := List.take_left' (c.encLong_len _)
+  have d0 : (c.encLong (name.length + 1) ++ (name ++ [0] ++ zeros (padLen (name.length + 1)))).drop 512
+      = name ++ [0] ++ zeros (padLen (name.length + 1)) := List.drop_left' (c.encLong_len _)
+  have dn : (name ++ [0] ++ zeros (padLen (name.length + 1))).drop (blockLen (name.length + 1)) = [] :=
+    List.drop_eq_nil_of_le (by rw [hnbl]; exact Nat.le_refl _)
+  simp only [readMembers, hs, read_mk, t0, d0, classify_encLong c _ hvl, dn, List.take_nil]
+  simp [classify]
+
 /-- the full-strength statement "every proper prefix of an archive makes the read fail" is FALSE of the code -/
-theorem truncation_fails_false (c : Codec) (m : Member) (p : Nat → Nat → Nat) (hm : c.valid m.name m.data.length) :
+theorem truncation_fails_false (c : Codec) (m : Member) (p : Nat → Nat → Nat) (hm : MValid c m) :
     ¬ (∀ n, n < (writeArchive c [m, m]).length →
         readArchive c.dec { data := (writeArchive c [m, m]).take n, policy := p } = .error) := by
   intro h
@@ -155,13 +191,13 @@ theorem truncation_fails_false (c : Codec) (m : Member) (p : Nat → Nat → Nat
   cases this
 
 /-- what does hold: a stream cut inside the *first* header block (or empty) fails -/
-theorem truncation_first_header_partial (c : Codec) (data : List Byte) (p : Nat → Nat → Nat) (h : data.length < 512) :
-    readArchive c.dec { data := data, policy := p } = .error := by
+theorem truncation_first_header_partial (dec : Dec) (data : List Byte) (p : Nat → Nat → Nat) (h : data.length < 512) :
+    readArchive dec { data := data, policy := p } = .error := by
   unfold readArchive
   have hf : data.length / 512 + 1 = 0 + 1 := by
     have : data.length / 512 = 0 := Nat.div_eq_of_lt h
     omega
-  show readMembers c.dec _ (mkReader data p 0) 0 [] = _
+  show readMembers dec _ (mkReader data p 0) 0 [] = _
   rw [hf]
   have hs := seek_mk data p 0 0 (Nat.le_refl _)
   simp only [Nat.sub_self, List.drop_zero] at hs
@@ -198,30 +234,53 @@ theorem makefile_terminates_false (p : Nat → Nat → Nat) (pos n : Nat) :
 def toyEnc (n : List Byte) (s : Nat) : List Byte :=
   ([1, UInt8.ofNat s, UInt8.ofNat n.length] ++ n ++ zeros 512).take 512
 
-def toyDec (b : List Byte) : Option (List Byte × Nat) :=
+def toyEncLong (n : Nat) : List Byte := ([2, UInt8.ofNat n] ++ zeros 512).take 512
+
+def toyDec (b : List Byte) : Option Hd :=
   match b with
-  | _ :: s :: l :: rest => some (rest.take l.toNat, s.toNat)
+  | t :: s :: l :: rest => if t = 1 then some (.reg (rest.take l.toNat) s.toNat) else if t = 2 then some (.long s.toNat) else none
   | _ => none
 
-/-- a (non-tar) header codec for names up to 100 bytes and sizes below 256: the laws are satisfiable -/
+/-- a (non-tar) header codec for names up to 254 bytes and sizes below 256: the laws are satisfiable -/
 def toyCodec : Codec where
   enc := toyEnc
+  encLong := toyEncLong
   dec := toyDec
   valid := fun n s => n.length ≤ 100 ∧ s < 256
+  validLong := fun n => n < 256
   enc_len := by intro n s; simp [toyEnc, List.length_take, zeros_length]
+  encLong_len := by intro n; simp [toyEncLong, List.length_take, zeros_length]
   dec_enc := by
     intro n s ⟨hn, hs⟩
     have toNat_ofNat : ∀ k, k < 256 → (UInt8.ofNat k).toNat = k := by
       intro k h; simp [Nat.mod_eq_of_lt h]
-    simp only [toyEnc, List.cons_append, List.nil_append, List.take_succ_cons, toyDec]
+    simp only [toyEnc, List.cons_append, List.nil_append, List.take_succ_cons, toyDec, if_true]
     rw [toNat_ofNat _ hs, toNat_ofNat _ (by omega), List.take_take]
     have : min n.length 509 = n.length := by omega
     rw [this, List.take_left' rfl]
+  dec_encLong := by
+    intro n hn
+    have toNat_ofNat : ∀ k, k < 256 → (UInt8.ofNat k).toNat = k := by
+      intro k h; simp [Nat.mod_eq_of_lt h]
+    have hz : zeros 512 = 0 :: zeros 511 := rfl
+    simp only [toyEncLong, List.cons_append, List.nil_append, hz, List.take_succ_cons, toyDec]
+    simp [toNat_ofNat _ hn]
   enc_nonzero := by intro n s _; simp [toyEnc, List.take_succ_cons]
+  encLong_nonzero := by intro n _; simp [toyEncLong, List.take_succ_cons]
 
+/-- a short-named member, an empty one and one whose name has 120 bytes (GNU long-name record) -/
 example (p : Nat → Nat → Nat) :
-    readArchive toyCodec.dec { data := writeArchive toyCodec [⟨[97], [1, 2, 3]⟩, ⟨[98], []⟩], policy := p }
-      = .ok [⟨[97], [1, 2, 3]⟩, ⟨[98], []⟩] :=
-  read_write_roundtrip toyCodec _ p (by simp [toyCodec])
+    readArchive toyCodec.dec { data := writeArchive toyCodec [⟨[97], [1, 2, 3]⟩, ⟨[98], []⟩, ⟨List.replicate 120 99, [7]⟩], policy := p }
+      = .ok [⟨[97], [1, 2, 3]⟩, ⟨[98], []⟩, ⟨List.replicate 120 99, [7]⟩] := by
+  apply read_write_roundtrip toyCodec _ p
+  intro m hm
+  simp only [List.mem_cons, List.mem_nil_iff, or_false] at hm
+  rcases hm with rfl | rfl | rfl
+  · exact ⟨by simp [toyCodec], by simp⟩
+  · exact ⟨by simp [toyCodec], by simp⟩
+  · refine ⟨by simp [toyCodec], fun _ => ⟨by simp [toyCodec], ?_⟩⟩
+    intro b hb
+    have := List.eq_of_mem_replicate hb
+    subst this; decide
 
 end SFV.C23
